@@ -71,14 +71,15 @@ def check(ctx):
 
     # which retrieval method serves which requested state
     served = {}
-    rm = cls.own_method("_retrieval_method")
-    if rm is not None:
-        for n in walk_shallow(rm.node):
-            if isinstance(n, ast.Dict):
-                for k, v in zip(n.keys, n.values):
-                    sc = _state_const(k)
-                    if sc and isinstance(v, ast.Attribute) and norm(v.value) == "self":
-                        served[v.attr] = sc
+    # the dispatch table {AllocateState.X: self.<retrieval method>} wherever the class keeps it (a helper method, or inline in get_wire)
+    for _nm, _fl in cls.methods.items():
+        for rm in _fl:
+            for n in walk_shallow(rm.node):
+                if isinstance(n, ast.Dict) and n.keys:
+                    for k, v in zip(n.keys, n.values):
+                        sc = _state_const(k) if k is not None else None
+                        if sc and isinstance(v, ast.Attribute) and norm(v.value) == "self":
+                            served[v.attr] = sc
     rep.floor("state -> retrieval method table", len(served), 2)
 
     n_handout = 0
@@ -429,18 +430,29 @@ def _map(ix, rep, m):
         raise AnalysisError("_new_ops: main loop not found")
     branches = {}
     node = loops[0].body
-    cur = next((s for s in node if isinstance(s, ast.If)), None)
-    while cur is not None:
-        t = norm(cur.test)
-        key = "Allocate" if "'Allocate'" in t else ("Deallocate" if "'Deallocate'" in t else None)
-        if key:
-            branches[key] = cur.body
-        nxt = cur.orelse
-        if len(nxt) == 1 and isinstance(nxt[0], ast.If) and ("'Allocate'" in norm(nxt[0].test) or "'Deallocate'" in norm(nxt[0].test)):
-            cur = nxt[0]
-        else:
-            branches["other"] = nxt
-            cur = None
+
+    def _key(test):
+        t = norm(test)
+        return "Allocate" if "'Allocate'" in t else ("Deallocate" if "'Deallocate'" in t else None)
+    # form 1: if / elif / else chain;  form 2: `if …: …; continue` blocks followed by the general case
+    chain_heads = [s for s in node if isinstance(s, ast.If) and _key(s.test)]
+    if len(chain_heads) >= 2 and all(not h.orelse and h.body and isinstance(h.body[-1], ast.Continue) for h in chain_heads):
+        for h in chain_heads:
+            branches[_key(h.test)] = h.body[:-1]
+        last = node.index(chain_heads[-1])
+        branches["other"] = node[last + 1:]
+    else:
+        cur = chain_heads[0] if chain_heads else None
+        while cur is not None:
+            key = _key(cur.test)
+            if key:
+                branches[key] = cur.body
+            nxt = cur.orelse
+            if len(nxt) == 1 and isinstance(nxt[0], ast.If) and _key(nxt[0].test):
+                cur = nxt[0]
+            else:
+                branches["other"] = nxt
+                cur = None
     for k in ("Allocate", "Deallocate", "other"):
         if k not in branches:
             raise AnalysisError(f"_new_ops: branch for {k} not found")
@@ -519,8 +531,27 @@ def _map(ix, rep, m):
     cfg = CFG(sub, may_raise=lambda n: False)
     ys = [x for x in cfg.stmts("stmt") if isinstance(x.stmt, ast.Expr) and isinstance(x.stmt.value, ast.Yield)]
 
+    def _raising_helper(call):
+        """a call `h(op, deallocated)` of a function of this module whose body raises under a test on its deallocated-set parameter"""
+        if not (isinstance(call, ast.Call) and isinstance(call.func, ast.Name)):
+            return False
+        g = m.functions.get(call.func.id)
+        if g is None or not any(isinstance(a_, ast.Name) and a_.id == dealloc for a_ in call.args):
+            return False
+        pos = [i for i, a_ in enumerate(call.args) if isinstance(a_, ast.Name) and a_.id == dealloc][0]
+        gp = [x.arg for x in g.node.args.args]
+        if pos >= len(gp):
+            return False
+        return any(isinstance(t_, ast.If) and gp[pos] in norm(t_.test) and any(isinstance(b, ast.Raise) for b in t_.body) for t_ in walk_shallow(g.node))
+
     def is_check(x):
-        return x.kind == "test" and dealloc in norm(x.stmt.test) and any(isinstance(b, ast.Raise) for b in x.stmt.body)
+        if x.kind == "test" and dealloc in norm(x.stmt.test):
+            if any(isinstance(b, ast.Raise) for b in x.stmt.body):
+                return True
+            # `if deallocated: _validate(op, deallocated)`: the test only skips the check when the set is empty
+            if any(isinstance(b, ast.Expr) and _raising_helper(b.value) for b in x.stmt.body):
+                return True
+        return x.kind == "stmt" and isinstance(x.stmt, ast.Expr) and _raising_helper(x.stmt.value)
 
     if not ys:
         rep.unknown("R-C22-map", f"{m.relpath}:_new_ops other", "no yield found")
